@@ -145,6 +145,16 @@ class Prop(BaseProp):
                         res.count("pages_reached_from_top")
             elif c.got:
                 res.violate("no-top-index", f"{sorted(c.got)[:4]}", wit)
+            # recorded finding: a module that is itself called index.cmake is written to <dir>/index.rst and replaces the
+            # directory's index page there (its toctree is gone, everything listed only by it becomes unreachable). Matched by
+            # mechanism: a processed file with the stem 'index' exists in this run; nothing else is re-labelled.
+            if any(os.path.basename(pg) == "index.cmake" for pg in c.ref.pages):
+                res.count("runs_with_a_module_named_index")
+                for v in res.violations:
+                    if v["cls"].split(":")[0] in ("toctree-count", "page-unreachable-from-top", "index-unreachable-from-top",
+                                                  "index-title-top", "index-title-sub", "index-title-frame", "no-top-index"):
+                        v["detail"] = f"[{v['cls']}] " + str(v["detail"])
+                        v["cls"] = "module-named-index-overwrites-directory-index"
             if idx % 50 == 0 and "index.rst" in c.got:
                 res.sample = {"argv": c.argv, "patterns": c.patterns, "top_index": open(os.path.join(out, "index.rst")).read(),
                               "written": sorted(c.got)[:15]}
